@@ -81,6 +81,7 @@ def check_views(scfg, report):
 
 def check_graph(g, fam, acc: Acc, opts):
     payload = opts.get("payload", "basic")
+    held = []          # (graph object, view object obtained and traversed at an earlier stage, where, stage)
     for stage, scfg, exc in staged(g, payload, include_input=True):
         if exc is not None:
             acc.counters[f"skipped_stage_raised[{stage}]"] += 1
@@ -92,7 +93,29 @@ def check_graph(g, fam, acc: Acc, opts):
                 return
             seen.add(clause)
             acc.viol(PROP, f"{PROP}/{clause}", detail, (g, stage), site=stage, case=graph_case(g, fam, stage, payload=payload))
+        # history: a view OBJECT taken (and traversed) before this stage is still the view of its graph after the stage
+        live = {id(level): level for level, _, _ in Hier(scfg).levels}
+        for level, view, where, since in held:
+            if id(level) not in live:
+                continue
+            try:
+                old, new = list(view), list(level.concealed_region_view)
+            except Exception as e:  # noqa: BLE001
+                report("view/held-raises", f"a view of {where} taken at stage {since} raised {type(e).__name__} when traversed after stage {stage}")
+                continue
+            acc.counters["held_views_retraversed"] += 1
+            if old != new:
+                report("view/held-stale", f"a view object of {where} taken and traversed at stage {since} yields {old} after stage {stage}; "
+                                          f"a fresh view of the same graph yields {new}")
         h = check_views(scfg, report)
+        held = []
+        for level, region, depth in h.levels:
+            try:
+                v = level.concealed_region_view
+                list(v)
+                held.append((level, v, region.name if region else "<top>", stage))
+            except Exception:  # noqa: BLE001  (reported by check_views)
+                pass
         acc.states += len(h.levels)
         acc.transitions += len(h.flat)
         acc.outcomes.add((stage, len(h.levels), len(h.flat)))
